@@ -2,18 +2,20 @@
 """Writes /verif/bin/build_overlay.json: harness files + generated lib for every package,
 so that the engine binary (which links /repo natively) can call exported harness shims."""
 import glob, json, os
+REPO = os.environ.get("VERIF_REPO", "/repo")
+OUT = os.environ.get("VERIF_BIN", "/verif/bin")
 PK = {"root": ("", "urlfilter"), "rules": ("rules", "rules"), "lookup": ("lookup", "lookup"),
       "filterlist": ("filterlist", "filterlist"), "filterutil": ("filterutil", "filterutil"), "proxy": ("proxy", "proxy")}
-os.makedirs("/verif/bin/ov", exist_ok=True)
+os.makedirs(OUT + "/ov", exist_ok=True)
 tmpl = open("/verif/harness/lib.go.tmpl").read()
 rep = {}
 for d, (sub, name) in PK.items():
     files = sorted(glob.glob(f"/verif/harness/{d}/*.go"))
     if not files:
         continue
-    lib = f"/verif/bin/ov/{d}_zz_verif_lib.go"
+    lib = f"{OUT}/ov/{d}_zz_verif_lib.go"
     open(lib, "w").write(tmpl.replace("package PKGNAME", "package " + name))
-    rep[os.path.join("/repo", sub, "zz_verif_lib.go")] = lib
+    rep[os.path.join(REPO, sub, "zz_verif_lib.go")] = lib
     for f in files:
-        rep[os.path.join("/repo", sub, os.path.basename(f))] = f
-json.dump({"Replace": rep}, open("/verif/bin/build_overlay.json", "w"), indent=1)
+        rep[os.path.join(REPO, sub, os.path.basename(f))] = f
+json.dump({"Replace": rep}, open(OUT + "/build_overlay.json", "w"), indent=1)
